@@ -1,4 +1,6 @@
 import Fv.Lemmas.PolicyLru
+import Fv.Lemmas.PolicyRandom
+import Fv.Lemmas.PolicySlru
 /-!
 # C14 — eviction policies nominate only tracked residents and follow their definition
 
@@ -180,6 +182,135 @@ theorem fifo_evicts_in_insertion_order (ops : List Op) (n : Nat) :
 
 example : (Fifo.evict (Fifo.run [.admit 1 1, .admit 2 1, .admit 3 1, .access 1 1, .admit 1 1]) 2).2.1
     = [1, 2] := by decide
+
+/-! ## Random (the victim picks are an oracle: statements hold for EVERY admissible pick list) -/
+
+theorem random_inv_step {s : Random.State} (h : Random.Inv s) (op : Op) : Random.Inv (Random.step s op) := by
+  cases op with
+  | admit k c => exact Random.Inv_admit h k c
+  | access k c => exact h
+  | remove k => exact Random.Inv_remove h k
+  | evict n picks =>
+    simp only [Random.step]
+    split
+    · next s' f he => exact (Random.evictWith_spec picks s n 0 s' f h he).choose_spec.2.2.2.1
+    · exact h
+  | clear => exact Random.Inv_init
+
+theorem random_inv_reachable (ops : List Op) : Random.Inv (Random.run ops) :=
+  foldl_inv Random.step Random.Inv (fun _ a h => random_inv_step h a) ops Random.init Random.Inv_init
+
+example : Random.Inv (Random.run [.admit 1 2, .admit 2 0, .evict 1 [2, 1]]) := random_inv_reachable _
+
+/-- Whatever victims the random generator picks (`evictWith … = some …` says the pick list is a
+possible run of the loop), they are distinct tracked keys, reported at their recorded costs, and
+exactly they are untracked. -/
+theorem random_evict_sound {s : Random.State} (h : Random.Inv s) (n : Nat) (picks : List Nat)
+    {s' : Random.State} {freed : Nat} (he : Random.evictWith s n picks 0 = some (s', freed)) :
+    EvictSound (Random.tracked s) (Random.tracked s') picks freed ∧ Random.Inv s' := by
+  obtain ⟨popped, hk, hf, hp, hi, _⟩ := Random.evictWith_spec picks s n 0 s' freed h he
+  have := EvictSound.of_perm h hp
+  rw [hk] at this
+  simp only [Nat.zero_add] at hf
+  rw [hf]; exact ⟨this, hi⟩
+
+theorem random_evict_enough {s : Random.State} (h : Random.Inv s) {n : Nat} (picks : List Nat)
+    {s' : Random.State} {freed : Nat} (he : Random.evictWith s n picks 0 = some (s', freed))
+    (hn : n ≤ costSum (Random.tracked s)) : n ≤ freed := by
+  obtain ⟨popped, hk, hf, hp, hi, hd⟩ := Random.evictWith_spec picks s n 0 s' freed h he
+  rcases hd with hd | hd
+  · omega
+  · have := costSum_perm hp
+    simp only [Random.tracked] at hn
+    rw [hd] at this; simp at this; omega
+
+example : Random.Inv (Random.run [.admit 1 2, .admit 2 3]) ∧
+    Random.evictWith (Random.run [.admit 1 2, .admit 2 3]) 4 [1, 2] 0 = some ({}, 5) :=
+  ⟨random_inv_reachable _, by decide⟩
+
+theorem random_untrack_only_by_nomination (s : Random.State) (k c : Nat) :
+    AccessOk (Random.tracked s) (Random.tracked (Random.access s k c)) k
+    ∧ AdmitOk (Random.tracked s) (Random.tracked (Random.admit s k c).1) k (Random.admit s k c).2.victims
+    ∧ RemoveOk (Random.tracked s) (Random.tracked (Random.remove s k)) k
+    ∧ Random.tracked (Random.clear s) = [] :=
+  ⟨AccessOk.rfl' k, AdmitOk.of_push _ k c, RemoveOk.of_without _ k, rfl⟩
+
+theorem random_readmit_updates_cost (s : Random.State) (k c : Nat) :
+    costOf (Random.tracked (Random.admit s k c).1) k = some c := costOf_push _ k c
+
+/-! ## SLRU (`protCap` = protected-segment capacity, a construction-time constant) -/
+
+theorem slru_inv_step (protCap : Nat) {s : Slru.State} (h : Slru.Inv s) (op : Op) :
+    Slru.Inv (Slru.step protCap s op) := by
+  cases op with
+  | admit k c =>
+    simp only [Slru.step, Slru.admit_fst]; split
+    · exact h
+    · next hk => exact (Slru.push_new_spec h hk c).1
+  | access k c => exact (Slru.accessInternal_spec h k c protCap).1
+  | remove k => exact (Slru.remove_spec h k).1
+  | evict n picks =>
+    obtain ⟨popped, s', he, _, hi, _⟩ := Slru.evictItems_spec h n protCap
+    simp only [Slru.step, Slru.evict, he]; exact hi
+  | clear => exact Slru.Inv_init
+
+theorem slru_inv_reachable (protCap : Nat) (ops : List Op) : Slru.Inv (Slru.run protCap ops) :=
+  foldl_inv (Slru.step protCap) Slru.Inv (fun _ a h => slru_inv_step protCap h a) ops Slru.init Slru.Inv_init
+
+/-- the invariant says in particular: no key is tracked twice (in either segment) -/
+theorem slru_inv_nodup {s : Slru.State} (h : Slru.Inv s) : (keys (Slru.tracked s)).Nodup :=
+  Slru.nodup_tracked h
+
+example : Slru.Inv (Slru.run 1 [.admit 1 2, .admit 2 0, .access 1 2, .access 2 0, .evict 1 []]) :=
+  slru_inv_reachable _ _
+
+theorem slru_evict_sound {s : Slru.State} (h : Slru.Inv s) (n protCap : Nat) :
+    EvictSound (Slru.tracked s) (Slru.tracked (Slru.evict s n protCap).1)
+      (Slru.evict s n protCap).2.1 (Slru.evict s n protCap).2.2
+    ∧ Slru.Inv (Slru.evict s n protCap).1 := by
+  obtain ⟨popped, s', he, hp, hi, _⟩ := Slru.evictItems_spec h n protCap
+  simp only [Slru.evict, he]
+  exact ⟨EvictSound.of_perm (Slru.nodup_tracked h) hp, hi⟩
+
+theorem slru_evict_enough {s : Slru.State} (h : Slru.Inv s) {n : Nat} (protCap : Nat)
+    (hn : n ≤ costSum (Slru.tracked s)) : n ≤ (Slru.evict s n protCap).2.2 := by
+  obtain ⟨popped, s', he, hp, _, hd⟩ := Slru.evictItems_spec h n protCap
+  simp only [Slru.evict, he]
+  rcases hd with hd | hd
+  · exact hd
+  · have := costSum_perm hp; rw [hd] at this; simp at this; omega
+
+example : Slru.Inv (Slru.run 1 [.admit 1 2, .admit 2 3]) ∧
+    4 ≤ costSum (Slru.tracked (Slru.run 1 [.admit 1 2, .admit 2 3])) := ⟨slru_inv_reachable _ _, by decide⟩
+
+theorem slru_untrack_only_by_nomination {s : Slru.State} (h : Slru.Inv s) (k c protCap : Nat) :
+    AccessOk (Slru.tracked s) (Slru.tracked (Slru.access s k c protCap)) k
+    ∧ AdmitOk (Slru.tracked s) (Slru.tracked (Slru.admit s k c).1) k (Slru.admit s k c).2.victims
+    ∧ RemoveOk (Slru.tracked s) (Slru.tracked (Slru.remove s k)) k
+    ∧ Slru.tracked (Slru.clear s) = [] := by
+  refine ⟨(Slru.accessInternal_spec h k c protCap).2.1, ?_, ?_, rfl⟩
+  · have hv : (Slru.admit s k c).2.victims = [] := rfl
+    rw [hv, Slru.admit_fst]; split
+    · next hk => exact AdmitOk.of_noop hk
+    · next hk =>
+      rw [(Slru.push_new_spec h hk c).2]
+      have := AdmitOk.of_push (Slru.tracked s) k c
+      rwa [without_eq_self hk] at this
+  · rw [(Slru.remove_spec h k).2]; exact RemoveOk.of_without _ k
+
+/-- F9c witness: SLRU keeps the stale cost on re-admission. -/
+theorem C14_fails_F9c_slru :
+    let s := (Slru.admit (Slru.admit Slru.init 1 1).1 1 5).1
+    costOf (Slru.tracked s) 1 = some 1 := by decide
+
+/-- PARTIAL (F9c): excluded is the cost update on re-admission of a tracked key (no-op, the OLD
+cost stays; no duplication). For an untracked key the cost is recorded as given. -/
+theorem slru_readmit_updates_cost_partial {s : Slru.State} (h : Slru.Inv s) (k c : Nat) :
+    (k ∉ keys (Slru.tracked s) → costOf (Slru.tracked (Slru.admit s k c).1) k = some c)
+    ∧ (k ∈ keys (Slru.tracked s) → (Slru.admit s k c).1 = s) := by
+  rw [Slru.admit_fst]
+  refine ⟨fun hk => ?_, fun hk => by simp [hk]⟩
+  simp only [hk, if_false]; rw [(Slru.push_new_spec h hk c).2]; exact costOf_push _ k c
 
 /-! ## ARC / TinyLFU witnesses -/
 
